@@ -48,7 +48,11 @@ class Management:
 
     def process(self, telegram: Telegram) -> None:
         """Process incoming telegrams."""
-        if isinstance(telegram.tpci, TDataConnected):
+        conn = self._connections.get(telegram.source_address)
+        if isinstance(telegram.tpci, TDataConnected) and (
+            # telegrams of peers without a connection object are still acknowledged
+            conn is None or conn.shall_acknowledge(telegram.tpci.sequence_number)
+        ):
             ack = Telegram(
                 destination_address=telegram.source_address,
                 tpci=TAck(sequence_number=telegram.tpci.sequence_number),
@@ -56,7 +60,7 @@ class Management:
             self.xknx.task_registry.background(
                 self.xknx.cemi_handler.send_telegram(ack)
             )
-        if conn := self._connections.get(telegram.source_address):
+        if conn:
             conn.process(telegram)
             return
         if telegram.tpci.numbered:
@@ -275,6 +279,17 @@ class P2PConnection:
                 self._ack_waiter.cancel()
             self._response_waiter.cancel()
             self.disconnect_hook()  # remove connection from management class
+
+    def shall_acknowledge(self, sequence_number: int) -> bool:
+        """
+        Return True if a received T_Data_Connected with this number is to be acknowledged.
+
+        KNX 03_03_04 Transport Layer: only on an open connection, for the expected
+        number (new telegram) or the one before (repetition of an acknowledged telegram).
+        """
+        return self._connected and (
+            (self._expected_sequence_number - sequence_number) & 0xF
+        ) in (0, 1)
 
     def process(self, telegram: Telegram) -> None:
         """Process incoming telegrams."""
